@@ -22,6 +22,7 @@ Apply(s, e) ==
     CASE e.k = "call" -> [s EXCEPT !.pc = "busy", !.fresh = 0]
       [] e.k = "ar"   -> [s EXCEPT !.fresh = @ + 1, !.adc = e.v, !.samples = @ + 1]
       [] e.k = "ret"  -> [s EXCEPT !.pc = "idle", !.calls = @ + 1, !.ret = e.v]
+      [] e.k = "drop" -> [s EXCEPT !.pc = "idle", !.calls = @ + 1]          \* the call ends, the script discards its result
       [] OTHER -> s
 Diff(s, e) ==
     CASE e.k = "call" -> IF s.pc # "idle" THEN "call-inside-call" ELSE ""
@@ -31,6 +32,8 @@ Diff(s, e) ==
       [] e.k = "ret"  -> IF s.pc # "busy" THEN "result-outside-call"
                          ELSE IF s.fresh = 0 THEN "no-fresh-read"
                          ELSE IF e.v # s.adc THEN "result-differs-from-read" ELSE ""
+      [] e.k = "drop" -> IF s.pc # "busy" THEN "result-outside-call"
+                         ELSE IF s.fresh = 0 THEN "no-fresh-read" ELSE ""       \* a discarded result still costs a fresh read
       [] OTHER -> "unknown-event"
 Step(s, e, t) == Diff(s, e) = "" /\ t = Apply(s, e)
 StepDiff(s, e, t) == IF Diff(s, e) # "" THEN Diff(s, e) ELSE IF t # Apply(s, e) THEN "state" ELSE ""
